@@ -39,17 +39,16 @@ Print Assumptions C07_field_imports_cover_extensions.
 (* ---- acceptance of the documented language.  Full statement: *)
 Definition C07_full_statement : Prop := full_language_statement.
 
-(* it does not hold: float rules ("TODO: float rules not implemented") and list rules on an
-   informal key ("unknown key format") are rejected — recorded findings *)
+(* it does not hold: float rules are rejected ("TODO: float rules not implemented") — recorded finding.
+   (List rules on an informal key were the second gap until fix dc2b724.) *)
 Theorem C07_language_refuted : ~ C07_full_statement.
 Proof. exact full_language_refuted. Qed.
 Print Assumptions C07_language_refuted.
 
-(* what holds: everything in the language except those two combinations is accepted and links;
-   missing for the full statement: float rules, informal key + list rules *)
+(* what holds: everything in the language except float rules is accepted and links;
+   missing for the full statement: float rules *)
 Theorem C07_language_accepted_partial : forall p,
-  in_language p = true -> uses_float_rules p = false -> uses_informal_key_listrules p = false ->
-  o_verdict (compile_iso p) = VOk.
+  in_language p = true -> uses_float_rules p = false -> o_verdict (compile_iso p) = VOk.
 Proof. exact language_accepted_partial. Qed.
 Print Assumptions C07_language_accepted_partial.
 
@@ -332,7 +331,7 @@ Print Assumptions C07_entity_accepted.
 (* ---- non-vacuity: concrete members of the language exercising rules, list rules, wrappers *)
 Example C07_example :
   let p := mkProp false (Array (Some (TInteger I64 (Some (mkIR true true (Some true) None false)) true)) (Some true) true) true false in
-  in_language p = true /\ uses_float_rules p = false /\ uses_informal_key_listrules p = false
+  in_language p = true /\ uses_float_rules p = false
   /\ compile_iso p = mkObs VOk [IJ5Ext; IBufValidate; IJ5List] [XField; XValidate; XList]
                            (Some (mkDesc PInt64 NNone true false)).
 Proof. vm_compute. repeat split. Qed.
